@@ -1,0 +1,156 @@
+//go:build verif
+
+package v1
+
+import (
+	"github.com/fatedier/frp/pkg/config/types"
+	"github.com/fatedier/frp/pkg/msg"
+	"github.com/fatedier/frp/verif"
+)
+
+// C18 "the proxy configuration the server reconstructs from a registration
+// message equals, in every field the server acts on, the configuration the
+// client loaded": one lemma per proxy type. c is an arbitrary completed client
+// configuration; the real MarshalToMsg, UnmarshalFromMsg and Complete are run.
+// The bandwidth limit travels as text: the lemma shows the server parses exactly
+// the text the client produced (the text round trip itself is string-level and
+// not decided here).
+
+// NewBandwidthQuantity parses text and touches nothing else: a deterministic
+// function of its argument (assumption A-DETFN; its body is string and float
+// parsing, outside the engine's theories).
+//
+//verif:det-fn ~/pkg/config/types.NewBandwidthQuantity
+
+func verifBaseRoundTrip(c, d *ProxyBaseConfig) {
+	verif.Assert(d.Name == c.Name, "name")
+	verif.Assert(d.Type == c.Type, "type")
+	verif.Assert(d.Transport.UseEncryption == c.Transport.UseEncryption && d.Transport.UseCompression == c.Transport.UseCompression, "transport_flags")
+	verif.Assert(d.Transport.BandwidthLimitMode == c.Transport.BandwidthLimitMode, "bandwidth_limit_mode")
+	verif.Assert(d.LoadBalancer.Group == c.LoadBalancer.Group && d.LoadBalancer.GroupKey == c.LoadBalancer.GroupKey, "group_and_key")
+	verif.Assert(verif.SameObject(d.Metadatas, c.Metadatas) && verif.SameObject(d.Annotations, c.Annotations), "metadatas_and_annotations")
+	if c.Transport.BandwidthLimit.String() != "" {
+		want, _ := types.NewBandwidthQuantity(c.Transport.BandwidthLimit.String())
+		verif.Assert(d.Transport.BandwidthLimit == want, "bandwidth_limit_parsed_from_the_clients_text")
+	}
+}
+
+//verif:lemma
+//verif:props C18
+func verif_roundtrip_TCP(c *TCPProxyConfig) {
+	verif.Requires(c.Transport.BandwidthLimitMode != "", "completed_configuration")
+	m := &msg.NewProxy{}
+	c.MarshalToMsg(m)
+	d := &TCPProxyConfig{}
+	d.UnmarshalFromMsg(m)
+	d.Complete("")
+	verifBaseRoundTrip(&c.ProxyBaseConfig, &d.ProxyBaseConfig)
+	verif.Assert(d.RemotePort == c.RemotePort, "RemotePort")
+}
+
+//verif:lemma
+//verif:props C18
+func verif_roundtrip_UDP(c *UDPProxyConfig) {
+	verif.Requires(c.Transport.BandwidthLimitMode != "", "completed_configuration")
+	m := &msg.NewProxy{}
+	c.MarshalToMsg(m)
+	d := &UDPProxyConfig{}
+	d.UnmarshalFromMsg(m)
+	d.Complete("")
+	verifBaseRoundTrip(&c.ProxyBaseConfig, &d.ProxyBaseConfig)
+	verif.Assert(d.RemotePort == c.RemotePort, "RemotePort")
+}
+
+//verif:lemma
+//verif:props C18
+func verif_roundtrip_HTTP(c *HTTPProxyConfig) {
+	verif.Requires(c.Transport.BandwidthLimitMode != "", "completed_configuration")
+	m := &msg.NewProxy{}
+	c.MarshalToMsg(m)
+	d := &HTTPProxyConfig{}
+	d.UnmarshalFromMsg(m)
+	d.Complete("")
+	verifBaseRoundTrip(&c.ProxyBaseConfig, &d.ProxyBaseConfig)
+	verif.Assert(d.SubDomain == c.SubDomain, "SubDomain")
+	verif.Assert(d.HTTPUser == c.HTTPUser, "HTTPUser")
+	verif.Assert(d.HTTPPassword == c.HTTPPassword, "HTTPPassword")
+	verif.Assert(d.HostHeaderRewrite == c.HostHeaderRewrite, "HostHeaderRewrite")
+	verif.Assert(d.RouteByHTTPUser == c.RouteByHTTPUser, "RouteByHTTPUser")
+	verif.Assert(verif.Same(d.CustomDomains, c.CustomDomains), "CustomDomains")
+	verif.Assert(verif.Same(d.Locations, c.Locations), "Locations")
+	verif.Assert(verif.SameObject(d.RequestHeaders.Set, c.RequestHeaders.Set) && verif.SameObject(d.ResponseHeaders.Set, c.ResponseHeaders.Set), "header_operations")
+}
+
+//verif:lemma
+//verif:props C18
+func verif_roundtrip_HTTPS(c *HTTPSProxyConfig) {
+	verif.Requires(c.Transport.BandwidthLimitMode != "", "completed_configuration")
+	m := &msg.NewProxy{}
+	c.MarshalToMsg(m)
+	d := &HTTPSProxyConfig{}
+	d.UnmarshalFromMsg(m)
+	d.Complete("")
+	verifBaseRoundTrip(&c.ProxyBaseConfig, &d.ProxyBaseConfig)
+	verif.Assert(d.SubDomain == c.SubDomain, "SubDomain")
+	verif.Assert(verif.Same(d.CustomDomains, c.CustomDomains), "CustomDomains")
+}
+
+//verif:lemma
+//verif:props C18
+func verif_roundtrip_TCPMux(c *TCPMuxProxyConfig) {
+	verif.Requires(c.Transport.BandwidthLimitMode != "", "completed_configuration")
+	m := &msg.NewProxy{}
+	c.MarshalToMsg(m)
+	d := &TCPMuxProxyConfig{}
+	d.UnmarshalFromMsg(m)
+	d.Complete("")
+	verifBaseRoundTrip(&c.ProxyBaseConfig, &d.ProxyBaseConfig)
+	verif.Assert(d.SubDomain == c.SubDomain, "SubDomain")
+	verif.Assert(d.HTTPUser == c.HTTPUser, "HTTPUser")
+	verif.Assert(d.HTTPPassword == c.HTTPPassword, "HTTPPassword")
+	verif.Assert(d.RouteByHTTPUser == c.RouteByHTTPUser, "RouteByHTTPUser")
+	verif.Assert(d.Multiplexer == c.Multiplexer, "Multiplexer")
+	verif.Assert(verif.Same(d.CustomDomains, c.CustomDomains), "CustomDomains")
+}
+
+//verif:lemma
+//verif:props C18
+func verif_roundtrip_STCP(c *STCPProxyConfig) {
+	verif.Requires(c.Transport.BandwidthLimitMode != "", "completed_configuration")
+	m := &msg.NewProxy{}
+	c.MarshalToMsg(m)
+	d := &STCPProxyConfig{}
+	d.UnmarshalFromMsg(m)
+	d.Complete("")
+	verifBaseRoundTrip(&c.ProxyBaseConfig, &d.ProxyBaseConfig)
+	verif.Assert(d.Secretkey == c.Secretkey, "Secretkey")
+	verif.Assert(verif.Same(d.AllowUsers, c.AllowUsers), "AllowUsers")
+}
+
+//verif:lemma
+//verif:props C18
+func verif_roundtrip_XTCP(c *XTCPProxyConfig) {
+	verif.Requires(c.Transport.BandwidthLimitMode != "", "completed_configuration")
+	m := &msg.NewProxy{}
+	c.MarshalToMsg(m)
+	d := &XTCPProxyConfig{}
+	d.UnmarshalFromMsg(m)
+	d.Complete("")
+	verifBaseRoundTrip(&c.ProxyBaseConfig, &d.ProxyBaseConfig)
+	verif.Assert(d.Secretkey == c.Secretkey, "Secretkey")
+	verif.Assert(verif.Same(d.AllowUsers, c.AllowUsers), "AllowUsers")
+}
+
+//verif:lemma
+//verif:props C18
+func verif_roundtrip_SUDP(c *SUDPProxyConfig) {
+	verif.Requires(c.Transport.BandwidthLimitMode != "", "completed_configuration")
+	m := &msg.NewProxy{}
+	c.MarshalToMsg(m)
+	d := &SUDPProxyConfig{}
+	d.UnmarshalFromMsg(m)
+	d.Complete("")
+	verifBaseRoundTrip(&c.ProxyBaseConfig, &d.ProxyBaseConfig)
+	verif.Assert(d.Secretkey == c.Secretkey, "Secretkey")
+	verif.Assert(verif.Same(d.AllowUsers, c.AllowUsers), "AllowUsers")
+}
